@@ -162,6 +162,10 @@ type LegOptions struct {
 	NatsQueueLen      uint
 	HTTPRequestLimit  uint
 	HTTPResponseLimit uint
+	// PreConnect (tcp leg) establishes that many client connections before
+	// the server starts serving, so that its accept loop finds them all
+	// waiting and accepts them back to back; NewClient hands them out first.
+	PreConnect int
 }
 
 // ---- in-memory server transport --------------------------------------------
@@ -259,10 +263,25 @@ func StartRPCLeg(kind, proto string, processor frugal.FProcessor, nsrv *NatsServ
 		}
 		addr := ss.Addr().String()
 		srv := frugal.NewFSimpleServer(processor, ss, leg.PF)
+		var preMu sync.Mutex
+		var pre []net.Conn
+		for i := 0; i < opt.PreConnect; i++ {
+			c, err := net.Dial("tcp", addr)
+			if err != nil {
+				return nil, err
+			}
+			pre = append(pre, c)
+		}
 		go srv.Serve()
 		leg.stop = append(leg.stop, func() { srv.Stop() })
 		leg.NewClient = func() (frugal.FTransport, error) {
-			sock := thrift.NewTSocketConf(addr, nil)
+			var sock thrift.TTransport = thrift.NewTSocketConf(addr, nil)
+			preMu.Lock()
+			if len(pre) > 0 {
+				sock = thrift.NewTSocketFromConnConf(pre[0], nil)
+				pre = pre[1:]
+			}
+			preMu.Unlock()
 			tr := frugal.NewAdapterTransport(&tapTransport{TTransport: sock, tap: leg.Tap})
 			return tr, tr.Open()
 		}
